@@ -4,8 +4,11 @@ package utils
 
 // Contracts for the verification framework in /verif (comment-only).
 
+// a pod wants an ENI IP iff one of its containers requests the ENI resource (C12: network selection)
+//@ pure wantsENI(spec *v1.PodSpec) bool = exists c int {spec.Containers[c]} :: 0 <= c && c < len(spec.Containers) && "tke.cloud.tencent.com/eni-ip" in spec.Containers[c].Resources.Requests
 //@ func [C12,C18] WantENIIP
 //@   requires spec != nil
+//@   ensures [C12:eni-wanted-iff-some-container-requests-it] result == wantsENI(spec)
 //@   modifies nothing
-//@   loop 0 invariant true
-//@   loop 1 invariant true
+//@   loop 0 invariant forall c int {spec.Containers[c]} :: 0 <= c && c < idx ==> !("tke.cloud.tencent.com/eni-ip" in spec.Containers[c].Resources.Requests)
+//@   loop 1 invariant !("tke.cloud.tencent.com/eni-ip" in visited) && forall c int {spec.Containers[c]} :: 0 <= c && c < idx ==> !("tke.cloud.tencent.com/eni-ip" in spec.Containers[c].Resources.Requests)
